@@ -94,7 +94,7 @@ PhaseOk(o, inst) ==
     /\ \A k \in 0..(inst.n - 1) : o.phase[k + 1] = (-(Sign(inst.dir)) * o.j * k) % inst.n
 
 ErrOk(o, inst) ==
-    LET bound == IF o.ref = "dft" /\ (Prop = "C02" \/ inst.elem = "dd")
+    LET bound == IF o.ref = "dft" /\ (Prop \in {"C02", "C10", "C13"} \/ inst.elem = "dd")
                  THEN LogBoundQ(inst.n) ELSE TolQ(inst.elem)
     IN  o.err_q <= bound
 
